@@ -187,7 +187,7 @@ static void random_solver_extras(ptree &p, Rng &r, const SolverCfg &s, CallSpec 
 }
 
 static void sub_truthful() {
-    long N = vf::tier(48, 700); long stride = vf::opt_int("stride", 1);
+    long N = vf::tier(48, 1200); long stride = vf::opt_int("stride", 1);
     for (long idx = 0; idx < N; ++idx) {
         if (!vf::selected("truthful", idx) || idx % stride != 0) continue;
         Rng r(vf::case_seed("truthful", idx));
